@@ -667,8 +667,10 @@ package appencryption
 //@   modifies sdom(this), sval(this)
 //@   ensures ret1 ==> old(sdom(this))[key] && result == old(sval(this))[key] && sdom(this)[key] && sval(this)[key] == result
 //@   ensures forall k string :: sdom(this)[k] ==> old(sdom(this))[k] && sval(this)[k] == old(sval(this))[k]
+//@   ensures !ret1 ==> !sdom(this)[key]
 //@ iface cache.Interface[string,*appencryption.Session].Set
 //@   names key, value
+//@   requires [C16:a-cached-session-is-never-replaced] !sdom(this)[key]
 //@   requires [C16:only-shared-sessions-are-cached] value != nil && istype(value.encryption, *sharedEncryption)
 //@   modifies sdom(this), sval(this)
 //@   ensures sdom(this)[key] && sval(this)[key] == value
@@ -681,7 +683,7 @@ package appencryption
 // what the session cache expects of its loader: a session whose encryption is the shared wrapper
 //@ funcspec sharedSessionLoader
 //@   names id
-//@   opt no-frame
+//@   modifies ext_calls, mk_calls, lcalls, refused, ms, owed, live, cacheowned
 //@   ensures err == nil ==> result != nil && valid(result) && istype(result.encryption, *sharedEncryption) && wfShared(dyn(result.encryption, *sharedEncryption)) && *dyn(result.encryption, *sharedEncryption).mu == 0
 //@   ensures err != nil ==> result == nil
 //@ funcfield (cacheWrapper).loader sharedSessionLoader
@@ -709,8 +711,8 @@ package appencryption
 // the loader the session cache installs wraps a plain session exactly once
 //@ funcspec plainSessionLoader
 //@   names id
-//@   opt no-frame
-//@   ensures err == nil ==> result != nil && valid(result) && result.encryption != nil && (istype(result.encryption, *sharedEncryption) ==> wfShared(dyn(result.encryption, *sharedEncryption)) && *dyn(result.encryption, *sharedEncryption).mu == 0)
+//@   modifies ext_calls, mk_calls, lcalls, refused, ms, owed, live, cacheowned
+//@   ensures err == nil ==> result != nil && valid(result) && fresh(result) && result.encryption != nil && (istype(result.encryption, *sharedEncryption) ==> wfShared(dyn(result.encryption, *sharedEncryption)) && *dyn(result.encryption, *sharedEncryption).mu == 0)
 //@ func newSessionCacheWithCache
 //@   facet C16
 //@   param loader plainSessionLoader
